@@ -149,7 +149,7 @@ def main():
         ],
         "checks": checks,
         "not_applicable": na,
-        "notes": "Driver: ./check <id> quick|thorough|--replay <file>; exit 0 held / 1 VIOLATION / 2 infrastructure. C01-C03, C05-C11, C15-C17 run in two build configurations of helgoboss-midi (no default features, then std + hook), C04 likewise, C07 additionally with serde, C18 in two low-optimisation configurations (mock clock / real clock), C19 with serde + serde_repr; a check passes only if every configuration passes. Known findings: /verif/known_findings.txt. Replays: /verif/replays/. VERIF_SEED seeds every random choice.",
+        "notes": "Driver: ./check <id> quick|thorough|--replay <file>; exit 0 held / 1 VIOLATION / 2 infrastructure. C01-C03, C05-C11, C15-C17 run in two build configurations of helgoboss-midi (no default features, then std + hook), C04 likewise, C07 additionally with serde, C18 in two low-optimisation configurations (mock clock / real clock), C19 with serde + serde_repr (with and without std); a check passes only if every configuration passes. Known findings: /verif/known_findings.txt. Replays: /verif/replays/. VERIF_SEED seeds every random choice.",
     }
     if not na:
         m["not_applicable"] = []
